@@ -88,7 +88,7 @@ Definition hq4 (e m d i : bool) : list quirk :=
   ++ (if d then QDf :: (if negb i then [QNonZeroID] else []) else if i then [QZeroID] else []).
 (* IPv6 header: flow label non-zero, ecn_nz *)
 Definition hq6 (fl e : bool) : list quirk := (if fl then [QFlowID] else []) ++ (if e then [QEcn] else []).
-(* TCP header: ECE|CWR, seq = 0, ACK, ack = 0, RST, URG, urg = 0, PSH *)
+(* TCP header: ECE|CWR|NS, seq = 0, ACK, ack = 0, RST, URG, urg = 0, PSH *)
 Definition hqt (ec sz a az r u uz p : bool) : list quirk :=
   (if ec then [QEcn] else []) ++ (if sz then [QSeqNumZero] else [])
   ++ (if a then (if az then [QAckNumZero] else []) else if negb az && negb r then [QAckNumNonZero] else [])
@@ -109,11 +109,11 @@ Proof.
 Qed.
 Lemma tcp_header_quirks_bits t :
   let f := byte_at t 13 in
-  tcp_header_quirks t = hqt (fECE f || fCWR f) (be32_at t 4 =? 0) (fACK f) (be32_at t 8 =? 0) (fRST f) (fURG f)
-                            (be16_at t 18 =? 0) (fPSH f).
+  tcp_header_quirks t = hqt (fECE f || fCWR f || N.odd (byte_at t 12)) (be32_at t 4 =? 0) (fACK f) (be32_at t 8 =? 0)
+                            (fRST f) (fURG f) (be16_at t 18 =? 0) (fPSH f).
 Proof.
-  unfold tcp_header_quirks, hqt, tcp_flags, tcp_sequence, tcp_acknowledgement, tcp_urgent_ptr, byte_at.
-  rewrite ece_cwr_bits, ack_bits, rst_bits, urg_bits, psh_bits. cbv zeta.
+  unfold tcp_header_quirks, hqt, tcp_flags, tcp_sequence, tcp_acknowledgement, tcp_urgent_ptr, tcp_reserved, byte_at.
+  rewrite ece_cwr_bits, ns_land_bits, ack_bits, rst_bits, urg_bits, psh_bits. cbv zeta.
   rewrite andb_comm. reflexivity.
 Qed.
 
